@@ -302,9 +302,12 @@ def isAuthErrTlv (b : Bytes) : Bool :=
   | [6, 1, _, 7, 1, 2] => true
   | _ => false
 
-/-- status ∉ 2xx, or a pairing-TLV authentication error; and nothing deferred, no session key -/
+/-- status ∉ 2xx, or a pairing-TLV authentication error; and nothing deferred, no session key, and
+    none of the flags by which a response makes the protocol act beyond this request (session
+    teardown of other controllers, advertisement refresh) -/
 def Resp.refusal (r : Resp) : Bool :=
-  (r.status < 200 || 300 ≤ r.status || isAuthErrTlv r.body) && !r.task && !r.sharedKey
+  (r.status < 200 || 300 ≤ r.status || isAuthErrTlv r.body) && !r.task && !r.sharedKey &&
+  !r.pairingRemoved && !r.pairingChanged
 
 /-! ### a sequence of requests on one connection -/
 
